@@ -134,6 +134,14 @@ def lookup_semantics(ctx: Ctx, gs) -> str:
 
 def r5(ctx: Ctx, rep: Report, tabs):
     prog = ctx.prog
+    # the bulk side of the agreement: _map_response stores, for every row in table order, what that row's read() just
+    # returned - unconditionally, so a later row of the same id replaces an earlier one ('last definition wins')
+    from .c11 import _isolating_loop
+    mr = prog.find_method(prog.cls("Inverter"), "_map_response")
+    ok, why = _isolating_loop(prog, mr, "read", ("ValueError",), ctx.res, last_wins=True)
+    rep.check(ok, "C16.R5", "bulk-last-wins", mr.loc() if mr is not None else "goodwe/inverter.py",
+              "_map_response stores each row's decoded value unconditionally under its id (last definition wins, as _get_sensor resolves it)",
+              bad="_map_response: %s: for an id listed twice the bulk result is no longer the value of the definition that read_sensor() resolves" % why)
     for famname in ("ET", "DT"):
         ci = prog.cls(famname)
         gs = ci.methods.get("_get_sensor")
